@@ -12,7 +12,7 @@ SPEC = dict(
     oracle_props=['C02'],
     partial=['panic(v) and runtime errors: the theorem covers Error/Errorf/Fail/Fatal/Fatalf/FailNow; that a panic value propagates to checkOnce is decided by the event-trace correspondence and the complete kind x context x position matrix (a panic raised in one cleanup and followed by a Skip in another cleanup is reported as invalid by the code: the last panic wins)',
              'non-fatal signals from other goroutines: C14 (lost-update theorems and the -race workload)',
-             'an empty failure message (t.Error() without arguments, t.Errorf("")) is indistinguishable from "not failed" in the code (T.failed == ""); the harness always uses non-empty messages; recorded in DESIGN.md section 7 as finding E1'],
+             'a panic followed by a Skip in a cleanup function that runs afterwards is counted as skipped by the code (open finding, known_findings.json); the empty-message variants t.Error() / t.Errorf("") are part of the matrix since the fix 9895181'],
     assumptions=['the harness logs every failure call it makes before making it; the TB is a recording rapid.TB'],
 )
 
